@@ -175,6 +175,7 @@ pub struct RunLog {
     pub hostile: bool,
     /// index of the first step of the benign continuation
     pub epilogue_from: Option<usize>,
+    pub epilogue_polls_max: usize,
 }
 
 pub fn to_property<'a>(p: &'a Prop) -> Property<'a> {
